@@ -52,35 +52,35 @@ func Family() []*Schema {
 		` z_ts DATETIME NOT NULL DEFAULT '2024-02-03 04:05:06', z_txt TEXT, z_tiny TINYINT NOT NULL DEFAULT 1`
 	return []*Schema{
 		{Name: "t_int", KeyKind: "int", KeyCols: []string{"id"},
-			DDL: "CREATE TABLE t_int (id INT NOT NULL, w1 INT NOT NULL, w2 VARCHAR(64) NOT NULL, u1 INT NOT NULL, PRIMARY KEY (id))"},
+			DDL: "CREATE TABLE t_int (id INT NOT NULL, w1 INT NOT NULL, w2 VARCHAR(64) NOT NULL, u1 INT NOT NULL DEFAULT 7, PRIMARY KEY (id))"},
 		{Name: "t_null", KeyKind: "int", KeyCols: []string{"id"}, Nullable: true,
-			DDL: "CREATE TABLE t_null (id BIGINT NOT NULL, w1 INT NOT NULL, w2 VARCHAR(64) NULL, u1 INT NOT NULL, PRIMARY KEY (id))"},
+			DDL: "CREATE TABLE t_null (id BIGINT NOT NULL, w1 INT NOT NULL, w2 VARCHAR(64) NULL, u1 INT NOT NULL DEFAULT 7, PRIMARY KEY (id))"},
 		{Name: "t_comp", KeyKind: "comp", KeyCols: []string{"id", "sub"},
-			DDL: "CREATE TABLE t_comp (id INT NOT NULL, sub VARCHAR(16) NOT NULL, w1 INT NOT NULL, w2 VARCHAR(64) NOT NULL, u1 INT NOT NULL, PRIMARY KEY (id, sub))"},
+			DDL: "CREATE TABLE t_comp (id INT NOT NULL, sub VARCHAR(16) NOT NULL, w1 INT NOT NULL, w2 VARCHAR(64) NOT NULL, u1 INT NOT NULL DEFAULT 7, PRIMARY KEY (id, sub))"},
 		{Name: "t_str", KeyKind: "str", KeyCols: []string{"id"},
-			DDL: "CREATE TABLE t_str (id VARCHAR(32) NOT NULL, w1 INT NOT NULL, w2 VARCHAR(64) NOT NULL, u1 INT NOT NULL, PRIMARY KEY (id))"},
+			DDL: "CREATE TABLE t_str (id VARCHAR(32) NOT NULL, w1 INT NOT NULL, w2 VARCHAR(64) NOT NULL, u1 INT NOT NULL DEFAULT 7, PRIMARY KEY (id))"},
 		{Name: "t_auto", KeyKind: "int", KeyCols: []string{"id"}, Auto: true,
-			DDL: "CREATE TABLE t_auto (id BIGINT NOT NULL AUTO_INCREMENT, w1 INT NOT NULL, w2 VARCHAR(64) NOT NULL, u1 INT NOT NULL, PRIMARY KEY (id))"},
+			DDL: "CREATE TABLE t_auto (id BIGINT NOT NULL AUTO_INCREMENT, w1 INT NOT NULL, w2 VARCHAR(64) NOT NULL, u1 INT NOT NULL DEFAULT 7, PRIMARY KEY (id))"},
 		{Name: "t_zoo", KeyKind: "int", KeyCols: []string{"id"}, Zoo: true,
-			DDL: "CREATE TABLE t_zoo (id INT NOT NULL, w1 INT NOT NULL, w2 VARCHAR(64) NOT NULL, u1 INT NOT NULL" + zoo + ", PRIMARY KEY (id))"},
+			DDL: "CREATE TABLE t_zoo (id INT NOT NULL, w1 INT NOT NULL, w2 VARCHAR(64) NOT NULL, u1 INT NOT NULL DEFAULT 7" + zoo + ", PRIMARY KEY (id))"},
 		{Name: "t_zooh", KeyKind: "int", KeyCols: []string{"id"}, Zoo: true, Harsh: true,
-			DDL: "CREATE TABLE t_zooh (id INT NOT NULL, w1 INT NOT NULL, w2 VARCHAR(64) NOT NULL, u1 INT NOT NULL" + zooh + ", PRIMARY KEY (id))"},
+			DDL: "CREATE TABLE t_zooh (id INT NOT NULL, w1 INT NOT NULL, w2 VARCHAR(64) NOT NULL, u1 INT NOT NULL DEFAULT 7" + zooh + ", PRIMARY KEY (id))"},
 		// t_nullw (SCHEMA=t_nullw only, never in the rotation): a statement that writes w = 0 changes nothing but a
 		// nullable column, and changes it to NULL
 		{Name: "t_nullw", KeyKind: "int", KeyCols: []string{"id"}, Nullable: true, NullOnly: true,
-			DDL: "CREATE TABLE t_nullw (id INT NOT NULL, w1 INT NOT NULL, w2 VARCHAR(64) NULL, u1 INT NOT NULL, PRIMARY KEY (id))"},
+			DDL: "CREATE TABLE t_nullw (id INT NOT NULL, w1 INT NOT NULL, w2 VARCHAR(64) NULL, u1 INT NOT NULL DEFAULT 7, PRIMARY KEY (id))"},
 		// t_compc (SCHEMA=t_compc only): composite keys whose values concatenate to the same text ((1,"12") and (11,"2"))
 		{Name: "t_compc", KeyKind: "compc", KeyCols: []string{"id", "sub"},
-			DDL: "CREATE TABLE t_compc (id INT NOT NULL, sub VARCHAR(16) NOT NULL, w1 INT NOT NULL, w2 VARCHAR(64) NOT NULL, u1 INT NOT NULL, PRIMARY KEY (id, sub))"},
+			DDL: "CREATE TABLE t_compc (id INT NOT NULL, sub VARCHAR(16) NOT NULL, w1 INT NOT NULL, w2 VARCHAR(64) NOT NULL, u1 INT NOT NULL DEFAULT 7, PRIMARY KEY (id, sub))"},
 		// t_uq (SCHEMA=t_uq only): a secondary UNIQUE index on a nullable column. Key 1 is the row with id 1 and
 		// code NULL, key 2 the row with code 'c2' (id 2 when seeded or inserted, id 102 when an upsert creates it):
 		// an upsert of key 2 names id 102 and reaches the existing row through the unique index, not the primary key
 		{Name: "t_uq", KeyKind: "uq", KeyCols: []string{"id"},
-			DDL: "CREATE TABLE t_uq (id INT NOT NULL, code VARCHAR(16) NULL, w1 INT NOT NULL, w2 VARCHAR(64) NOT NULL, u1 INT NOT NULL, PRIMARY KEY (id), UNIQUE KEY uq_code (code))"},
+			DDL: "CREATE TABLE t_uq (id INT NOT NULL, code VARCHAR(16) NULL, w1 INT NOT NULL, w2 VARCHAR(64) NOT NULL, u1 INT NOT NULL DEFAULT 7, PRIMARY KEY (id), UNIQUE KEY uq_code (code))"},
 		// t_numw (SCHEMA=t_numw only): the written part is a VARCHAR whose three values are different texts of the
 		// same number (none of them is valid base64, which is C08's open finding F-C08-4)
 		{Name: "t_numw", KeyKind: "int", KeyCols: []string{"id"}, NullOnly: true, W2Vals: []interface{}{"042", "42", "42.0"},
-			DDL: "CREATE TABLE t_numw (id INT NOT NULL, w1 INT NOT NULL, w2 VARCHAR(64) NOT NULL, u1 INT NOT NULL, PRIMARY KEY (id))"},
+			DDL: "CREATE TABLE t_numw (id INT NOT NULL, w1 INT NOT NULL, w2 VARCHAR(64) NOT NULL, u1 INT NOT NULL DEFAULT 7, PRIMARY KEY (id))"},
 	}
 }
 
@@ -249,6 +249,9 @@ type Style struct {
 	FailFirst bool
 	// switches that steer around statement forms with known phase-one defects (reported under C16/C18),
 	// so that they do not mask everything downstream of phase one
+	// OmitU: INSERT does not name the column the statements never write (u1); it gets its DEFAULT, which is the
+	// value the abstract insert gives it (u = 0).  The after image must still speak about the whole row.
+	OmitU      bool
 	Parens     bool // parenthesised key conditions (WHERE (a = ? AND b = ?)): image query loses its arguments
 	LitStrKeys bool // string literals in WHERE: the image query is rebuilt without the quotes
 }
@@ -259,7 +262,7 @@ func (st Style) IsMulti(s Stmt) bool {
 }
 
 func RandStyle(r *rand.Rand) Style {
-	return Style{Literal: r.Intn(3) == 0, InList: r.Intn(2) == 0, Explicit: r.Intn(3) == 0, Upper: false, Multi: r.Intn(4) == 0, FailFirst: r.Intn(4) == 0, NoWhereFirst: r.Intn(2) == 0, RefuseReports: r.Intn(2) == 0, PkLate: r.Intn(3) == 0}
+	return Style{Literal: r.Intn(3) == 0, InList: r.Intn(2) == 0, Explicit: r.Intn(3) == 0, Upper: false, Multi: r.Intn(4) == 0, FailFirst: r.Intn(4) == 0, NoWhereFirst: r.Intn(2) == 0, RefuseReports: r.Intn(2) == 0, PkLate: r.Intn(3) == 0, OmitU: r.Intn(3) == 0}
 }
 
 func lit(v interface{}) string {
@@ -421,7 +424,15 @@ func (s *Schema) SQL(st Stmt, style Style) (string, []interface{}) {
 				if i > 0 {
 					b.sb.WriteString(", ")
 				}
-				b.sb.WriteString("(" + fmt.Sprint(s.W1(st.W)) + ", ")
+				if i%2 == 1 {
+					// rows differ in which values before the key are literals: the position of the key among the
+					// bound arguments has to be worked out row by row
+					b.sb.WriteString("(")
+					b.val(s.W1(st.W))
+					b.sb.WriteString(", ")
+				} else {
+					b.sb.WriteString("(" + fmt.Sprint(s.W1(st.W)) + ", ")
+				}
 				b.val(s.KeyVals(k)[0])
 				b.sb.WriteString(", ")
 				b.val(s.W2(st.W))
@@ -443,7 +454,11 @@ func (s *Schema) SQL(st Stmt, style Style) (string, []interface{}) {
 		if auto {
 			cols = cols[1:]
 		}
-		cols = append(cols, "w1", "w2", "u1")
+		omitU := style.OmitU && st.U == 0
+		cols = append(cols, "w1", "w2")
+		if !omitU {
+			cols = append(cols, "u1")
+		}
 		if s.Zoo {
 			cols = append(cols, "z_txt")
 		}
@@ -464,8 +479,10 @@ func (s *Schema) SQL(st Stmt, style Style) (string, []interface{}) {
 			b.val(s.W1(st.W))
 			b.sb.WriteString(", ")
 			b.val(s.W2(st.W))
-			b.sb.WriteString(", ")
-			b.val(s.U1(st.U))
+			if !omitU {
+				b.sb.WriteString(", ")
+				b.val(s.U1(st.U))
+			}
 			if s.Zoo {
 				b.sb.WriteString(", ")
 				b.val(s.ZTxt(k))
